@@ -43,7 +43,7 @@ def gen_script(rng, case, maxops=24, p_op=0.5):
             # yyless()/yymore()/REJECT are only scripted before yyunput()/yyinput() in the
             # same action: the manual defines them on the current token, and the
             # skeleton's yyless/REJECT restore positions that unput/input have moved
-            if not edited2: choices += ["L", "L"]
+            if not edited2 and not did_more: choices += ["L", "L"]   # yyless() after yymore() in one action: unclear in the manual
             if cfg.get("yymore") and cfg.get("yymore") != "no" and not edited2: choices.append("M")
             if cfg.get("stack", True) and cfg.get("stack") != "no": choices += ["P", "O", "Q"]
             if cfg.get("reject") and cfg.get("reject") != "no" and not edited: choices += ["R", "R"]
